@@ -285,3 +285,16 @@ Proof.
   unfold quiet in Hq. rewrite forallb_forall in Hq. specialize (Hq p (nth_error_In _ _ E)).
   destruct p; try discriminate; auto. destruct (done s); [discriminate|reflexivity].
 Qed.
+
+(** ------------------------------------------------------------------ the routing theorems depend on M7 *)
+
+(** without freshness of the agent path (here: the focus future is also reachable under another request's path 7)
+    a reply addressed to that other request completes this future with a message nobody replied to it *)
+Lemma routing_needs_M7 :
+  exists progs sched m,
+    ~ M7_agent_path_fresh progs /\ msg (run sched (init 0 progs)) = Some m /\ ~ In (PReply fpath (VMsg m)) progs.
+Proof.
+  exists [PForeignReg 7 0; PReply 7 (VMsg 9)], (map Run [0;0;0;0;1;1;2;2;2;2]%nat), 9.
+  split; [unfold M7_agent_path_fresh; cbn; discriminate|]. split; [vm_compute; reflexivity|].
+  cbn. intros [H|[H|[]]]; discriminate.
+Qed.
